@@ -119,9 +119,17 @@ func (p *Prog) resolveAliases() {
 		return false
 	}
 	set := func(k, v string) {
-		if v != "" && !exists(k) {
-			a[k] = v
+		if v == "" {
+			return
 		}
+		if exists(k) {
+			_, key, _ := strings.Cut(k, ":")
+			if _, mem, hasMem := strings.Cut(key, "."); hasMem {
+				key = mem
+			}
+			v = key // still there under its pinned name
+		}
+		a[k] = v
 	}
 
 	// ---- channel
